@@ -93,6 +93,7 @@ type Def struct {
 	Kind     RecKind
 	Name     string
 	ReadOnly bool
+	Imported bool // defined in the imported file (Go package drvdep)
 	Fields   []DefField  // struct: schema order; msg: ascending idx
 	Branches []DefBranch // union: ascending disc
 }
@@ -172,7 +173,7 @@ func Compile(f File) *Env {
 		panic("schema: bad type kind")
 	}
 	for _, r := range defs {
-		d := Def{Kind: r.Kind, Name: r.Name, ReadOnly: r.ReadOnly}
+		d := Def{Kind: r.Kind, Name: r.Name, ReadOnly: r.ReadOnly, Imported: r.Imported}
 		switch r.Kind {
 		case Struct, Message:
 			for _, fd := range r.sortedFields() {
